@@ -186,18 +186,18 @@ def run(ctx):
     nat = ctx.nat(); NAT[:] = [nat]
     items = []
     for b in BACKENDS:
-        for L in range(0, (3 if quick else 6)): items.append(('value_to_string', 'string', b, L))
+        for L in range(0, (4 if quick else 6)): items.append(('value_to_string', 'string', b, L))
         items.append(('value_to_string', 'char', b, 1))
         for L in range(0, 3 if quick else 5): items.append(('value_to_string', 'bytes', b, L))
         for pos in ('select_value', 'constant', 'order_field', 'where_in'):
-            for L in ((1, 2) if quick else (0, 1, 2, 3)): items.append((pos, 'string', b, L))
+            for L in ((1, 2, 3) if quick else (0, 1, 2, 3)): items.append((pos, 'string', b, L))
             items.append((pos, 'char', b, 1)); items.append((pos, 'bytes', b, 1 if quick else 2))
-        for L in ((1, 2) if quick else (0, 1, 2, 3)): items.append(('like_pattern', 'string', b, L))
+        for L in ((1, 2, 3) if quick else (0, 1, 2, 3)): items.append(('like_pattern', 'string', b, L))
         for pos, (fn, bks) in DDL_POS.items():
             if b not in bks: continue
             for L in ((1, 2) if quick else (0, 1, 2, 3)): items.append((pos, 'string', b, L))
         items.append(('like_escape', 'char', b, 1))
-    ctx.bounds = {'strings': 'L <= %d arbitrary Unicode scalar values at value_to_string, L <= %d at statement positions' % ((2, 2) if quick else (5, 3)),
+    ctx.bounds = {'strings': 'L <= %d arbitrary Unicode scalar values at value_to_string, L <= %d at statement positions' % ((3, 3) if quick else (5, 3)),
                   'bytes': 'L <= %d arbitrary bytes' % (2 if quick else 4), 'char': 'one arbitrary Unicode scalar value',
                   'positions': ['value_to_string', 'SELECT value (impl SqlWriter for String)', 'SimpleExpr::Constant', 'ORDER BY FIELD value', 'IN list member', 'LIKE pattern', 'LIKE .. ESCAPE char'] + ['schema: ' + p for p in DDL_POS],
                   'backends': list(BACKENDS)}
